@@ -126,7 +126,11 @@ def parseValue (W : DataWorld V) (L : Legacy) (o : Opts) (f : FieldDecl V) (v : 
 /-! ### BaseParser.parse_addition — base.py:390-421 -/
 
 def parseAddition (W : DataWorld V) (o : Opts) (P : ParserDecl V) (key : Nat) (v : V) : M (Option V) :=
-  if P.excludeVars.contains key then pure none
+  if P.excludeVars.contains key then
+    -- where unknown keys are refused, a key that is given but cannot be taken is not dropped silently (base.py:421-427)
+    match o.addition with
+    | .forbid => do handleError o (mk K.exceed Site.exceed (some key)); pure none
+    | _ => pure none
   else match o.addition with
     | .forbid => do handleError o (mk K.exceed Site.exceed (some key)); pure none
     | .unset => pure none
@@ -251,14 +255,28 @@ def dataFirstParse (W : DataWorld V) (L : Legacy) (o : Opts) (P : ParserDecl V) 
 
 /-! ### field_first_parse — base.py:562-700 -/
 
-/-- scan the remaining aliases that are present: the first differing value is the conflict and ends the scan.
-(The letter-case pre-pass, base.py:571-590, belongs to the key lookup that is abstracted here.) -/
-def ffConflicts (W : DataWorld V) (L : Legacy) (value : V) : List V → M Bool
+/-- the letter-case pre-pass (base.py:575-592): the same key given in several letter cases — the first one is used,
+every later one is compared with it (`_alias_conflict(first, later)`), a differing one is a conflict of that alias.
+In the model a key id stands for the lower-cased key, so letter-case variants are several entries with the same id. -/
+def caseConflict (W : DataWorld V) (L : Legacy) (first : V) : List V → M Bool
   | [] => pure false
   | x :: xs => do
+    let c ← aliasConflict W L first x
+    let r ← caseConflict W L first xs
+    pure (c || r)
+
+/-- the alias scan of one field (base.py:612-622) over the aliases that are present, each with its letter-case
+variants: a later alias whose value differs from the one taken is the conflict (`break`), and so is an alias whose
+own variants differ -/
+def ffConflicts (W : DataWorld V) (L : Legacy) (value : V) : List (V × List V) → M Bool
+  | [] => pure false
+  | (x, variants) :: gs => do
     let c ← aliasConflict W L x value
     if c then pure true                    -- `conflict = data[alias]; break`
-    else ffConflicts W L value xs
+    else do
+      let cc ← caseConflict W L x variants
+      if cc then pure true                 -- `if alias in conflicts: ...; break`
+      else ffConflicts W L value gs
 
 def ffFields (W : DataWorld V) (L : Legacy) (o : Opts) (excluded : List Nat) (data : List (Nat × V)) :
     List (FieldDecl V) → Acc V → M (Acc V)
@@ -266,16 +284,21 @@ def ffFields (W : DataWorld V) (L : Legacy) (o : Opts) (excluded : List Nat) (da
   | f :: fs, a =>
     if excluded.contains f.id then ffFields W L o excluded data fs a
     else
-      -- values found under the field's aliases, in alias order
-      let found := f.aliases.filterMap (fun al => (data.find? (fun p => p.1 == al)).map (·.2))
+      -- values found under the field's aliases, in alias order, each with its letter-case variants (data order)
+      let found := f.aliases.filterMap (fun al =>
+        match (data.filter (fun p => p.1 == al)).map (·.2) with
+        | [] => none
+        | v :: variants => some (v, variants))
       match found with
       | [] =>
         if f.isRequired o then do
           handleError o (mk K.absence Site.absence (some f.id))
           ffFields W L o excluded data fs a
         else ffFields W L o excluded data fs (match f.default with | some d => a.set f.id d | none => a)
-      | value :: more => do
-        let conflict ← if o.ignoreAliasConflicts then pure false else ffConflicts W L value more
+      | (value, variants) :: more => do
+        let conflict ← if o.ignoreAliasConflicts then pure false else do
+          let cc ← caseConflict W L value variants
+          if cc then pure true else ffConflicts W L value more
         let a := { a with used := a.used ++ f.aliases }
         if W.noInput f.id value then
           ffFields W L o excluded data fs (match f.default with | some d => a.set f.id d | none => a)
